@@ -26,7 +26,7 @@ class C10(object):
             'condition, or a rejection case')
     assumptions = ['steady-state initialisation off', "initial conditions are spelled X(0) as the model emits them",
                    'a horizon assigned to the solver after ParseString is not "the horizon" (picked up on next parse)']
-    required_counters = ('length.judged', 'exo.judged', 'ic.judged', 'lag.judged', 'time.judged', 'reject.judged',
+    required_counters = ('length.judged', 'exo.judged', 'ic.judged', 'ic.zero_valued.judged', 'model.horizon_chosen_after_exogenous_paths', 'lag.judged', 'time.judged', 'reject.judged',
                          'model.judged', 'solver_reused.cases', 'ic_on_default_time.judged',
                          'solver_horizon_overrides_line.cases', 'horizon_assigned_after_parse.cases',
                          'exo_on_parameter.judged')
@@ -53,6 +53,19 @@ class C10(object):
                  [c['name'] for c in spec['consts']])
         for nm in rng.sample(cands, min(len(cands), rng.randint(0, 4))):
             spec['ics'][nm] = G.nice(rng, -5.0, 20.0) if rng.random() < 0.8 else float(rng.randint(-3, 9))
+        zero_ic = False
+        if m in (3, 7, 11):
+            # stated initial conditions of exactly zero, on a derived variable whose right-hand side is known at k=0
+            # (built from constants only), on a constant, and on a simultaneous variable
+            spec['consts'].append({'name': 'zc_c', 'value': 4.0})
+            spec['decos'].append({'name': 'zc_report', 'expr': '3.0 + zc_c'})
+            spec['ics']['zc_report'] = rng.choice([0.0, -0.0, 0.0])
+            if m == 7:
+                spec['consts'].append({'name': 'zc_d', 'value': 2.5})
+                spec['ics']['zc_d'] = 0.0
+            if m == 11:
+                spec['ics'][spec['simul'][0]['name']] = 0.0
+            zero_ic = True
         via = rng.choice(['line', 'line', 'solver', 'solver_override'])
         if spec['time'] is None and rng.random() < 0.3:
             spec['ics']['t'] = rng.choice([1990.0, 2000.0, -1.0, 0.5])     # initial condition on the DEFAULT time axis
@@ -67,7 +80,7 @@ class C10(object):
         if via == 'line' and maxtime >= 2 and rng.random() < 0.25:
             late = rng.randint(0, maxtime - 1)
         case = {'kind': 'solve', 'spec': spec, 'text': text, 'late_horizon': late,
-                'via': via, 'reduction': rng.random() < 0.5, 'earlier': None}
+                'via': via, 'reduction': (rng.random() < 0.5) or (zero_ic and m != 11), 'earlier': None, 'zero_ic': zero_ic}
         if via == 'line' and rng.random() < 0.35:
             # the same solver object has already parsed and solved another block with another horizon
             other = G.gen_affine(rng, n_simul=rng.randint(1, 3), rho=0.3, tol=1e-9, maxtime=rng.choice([0, 1, 2, 3, 7, 20]))
@@ -87,6 +100,9 @@ class C10(object):
         if rng.random() < 0.3:
             params['HH|AlphaFin'] = [round(rng.uniform(0.2, 0.5), 3) for _ in range(n)]
         return {'kind': 'model', 'maxtime': T, 'form': form, 'g': g, 'param_paths': params,
+                # when the horizon is chosen: before the exogenous paths are supplied, afterwards (the model held a
+                # shorter horizon while they were supplied), or afterwards directly on the solver
+                'horizon_set': rng.choice(['before', 'after', 'after', 'solver_after']),
                 'ics': {'HH|F': G.nice(rng, 0, 50), 'GOV|F': -G.nice(rng, 0, 50)} if rng.random() < 0.6 else {},
                 'ic_aftertax': G.nice(rng, 0, 30) if rng.random() < 0.5 else None,
                 'builder': rng.choice(['SIM', 'SIMEX1'])}
@@ -227,6 +243,8 @@ class C10(object):
                                                        'expected': exp[:8]})
         for n, v in spec['ics'].items():
             rec.count('ic.judged')
+            if v == 0.0:
+                rec.count('ic.zero_valued.judged')
             if not (ts[n][0] == v):
                 rec.violate('initial_condition_not_k0_value', {'var': n, 'stated': v, 'got': ts[n][0],
                                                                'reduction': case.get('reduction')})
@@ -303,7 +321,8 @@ class C10(object):
         b = cls(country_code='C1', use_book_exogenous=False)
         mod = b.build_model()
         T = case['maxtime']
-        mod.MaxTime = T
+        hs = case.get('horizon_set', 'before')
+        mod.MaxTime = T if hs == 'before' else min(1, T)
         g = case['g']
         val = {'list': list(g), 'tuple': tuple(g), 'str': repr(g),
                'str_expr': '[%r]*%d + %r' % (g[0], 1, g[1:])}[case['form']]
@@ -319,9 +338,22 @@ class C10(object):
         if case['ic_aftertax'] is not None:
             mod.AddInitialCondition('HH', 'AfterTax', case['ic_aftertax'])
         mod.EquationSolver.MaxIterations = 2000
+        if hs == 'after':
+            mod.MaxTime = T
+        elif hs == 'solver_after':
+            mod.EquationSolver.MaxTime = T
+        if hs != 'before':
+            rec.count('model.horizon_chosen_after_exogenous_paths')
         try:
             with contextlib.redirect_stdout(io.StringIO()):
                 mod.main()
+        except ValueError as e:
+            if 'xogenous' in str(e):
+                # every supplied path has at least horizon+1 values and is a plain list/tuple/literal
+                rec.violate('sufficient_exogenous_path_rejected', {'err': str(e)[:200], 'horizon': T, 'horizon_set': hs,
+                                                                   'supplied_values': len(g), 'form': case['form']})
+                return {'verdict': 'violated', 'shape': 'model', 'counters': rec.counters, 'violations': rec.violations}
+            return {'verdict': 'notjudged', 'shape': 'model|' + type(e).__name__, 'obs': {'err': repr(e)[:200]}}
         except Exception as e:
             return {'verdict': 'notjudged', 'shape': 'model|' + type(e).__name__, 'obs': {'err': repr(e)[:200]}}
         ts = mod.EquationSolver.TimeSeries
